@@ -30,7 +30,12 @@ EXPLANATION = (
     "indices) with all four read off ONE variant and off the sign-canonical split that was compared; a variant that puts a "
     "contracted index of the intermediate on a target index of the term is never accepted (scenarios with concrete target "
     "indices; with symbolic targets the accepting path must carry the decision `image not in term.eri.target` for every "
-    "contracted index); the long factorisation files no such match in the pool either. "
+    "contracted index); the long factorisation files no such match in the pool either. The index map of an accepted variant is "
+    "injective on the summed indices of the definition: variants in which two contracted indices, or a contracted and a target "
+    "index of the intermediate, land on one index are never accepted (coinciding TARGET indices still are); variants whose "
+    "contracted index occurs in the remainder are skipped without raising (concrete remainder indices; with symbolic ones the "
+    "accepting path carries the decision); in the long factorisation a match whose itmd indices are reordered by the tensor "
+    "symmetry (alias of the match at another position) does not enter the pool. "
     "_factor_long_intermediate: every match filed in the pool has prefactor term.pref*f/(n*itmd.pref), unit prefactor "
     "itmd.pref*f*n (f = variant factor * sign of the minimised tensor), remainder/indices of its own variant; the result is "
     "the two factorisation passes plus every term they did not consume, once. _factor_complete / _factor_mixed_prefactors "
@@ -39,7 +44,7 @@ EXPLANATION = (
     "short/long factorisation (definition prepared for the already factored intermediates, max_order//order repetitions), "
     "the rest added back, nothing-to-do table. factor_intermediates: requested intermediates (max_order filter) factored in "
     "sequence on the running expression, each told its predecessors. R11c: _build_factored_term over a table of tensor "
-    "names: 0 exactly for 'Zero', remainder*pref*tensor otherwise; only re_residual classes build 'Zero'. R11d: every "
+    "names, also for -tensor (non-canonical itmd indices): 0 exactly for 'Zero', remainder*pref*tensor otherwise; only re_residual classes build 'Zero'. R11d: every "
     "_build_expanded_itmd evaluated for both levels: referenced intermediates enter as X.expand_itmd (fully expanding) / "
     "X.tensor (residuals always .tensor) and both levels are the same formula. R11e/R11f: every _build_tensor is evaluated, "
     "the tensor is constructed through the evaluated constructors of sympy_objects (canonical sort, bra-ket swap), its "
@@ -63,6 +68,9 @@ ASSUMPTIONS = [
     "the matching logic itself (_compare_eri_parts, _map_on_other_terms, minimize_tensor_indices, the search in "
     "LongItmdVariants.get_complete_variant/get_mixed_pref_variant, factor_denom) is a runtime statement and not decided; the "
     "rules decide that whatever these return is used consistently and conservatively",
+    "the round trip factor(expand(x)) = x on concrete expressions (e.g. the raw output of expand_intermediates().expand() with two "
+    "terms that are equal up to the names of contracted indices) is a runtime statement; decided here are the clauses it rests on "
+    "(injective index maps, no alias registration, conservation, prefactor formulas, pool bookkeeping)",
     "the value-preserving nature of EriOrbenergy(term).canonicalize_sign(), .expand(), Expr(...) and term.cancel_*() is assumed "
     "(they are treated as transparent wrappers / uninterpreted factors)",
     "scenarios are bounded: at most two terms per expression in the short factorisation, four in the long one, pools of at most "
@@ -489,6 +497,18 @@ SHORT_SCENARIOS = {
     "unsubstituted contracted index is a target": ("ia", "kc", True, [[((0,), (0,), {"i": "m", "k": "l"}, "F0"), ((1,), (1,), {"k": "l", "c": "d"}, "F1")]], "cy"),
     "two terms, one sums a target": ("ia", "k", True, [[((0,), (0,), {"k": "y"}, "F0")], [((2,), (1,), {"a": "e", "k": "n"}, "G0")]], "xy"),
     "targets untouched": ("ia", "k", True, [[((0,), (0,), {"i": "x", "k": "n"}, "F0")]], "xy"),
+    # the index map of a variant has to be injective on the contracted indices of the definition
+    "contracted indices coincide": ("ia", "kl", True, [[((0,), (0,), {"i": "m", "k": "n", "l": "n"}, "F0"), ((1,), (0,), {"i": "m", "k": "n", "l": "o"}, "F1")]]),
+    "contracted index on an itmd target index": ("ia", "k", True, [[((0,), (0,), {"i": "m", "k": "m"}, "F0")]]),
+    "contracted index on an unsubstituted itmd target index": ("ia", "kc", True, [[((0,), (0,), {"i": "m", "c": "a"}, "F0"), ((2,), (0,), {"i": "m", "c": "e"}, "F1")]]),
+    "target indices coincide": ("ijab", "k", True, [[((0,), (0,), {"i": "m", "j": "m"}, "F0")]]),
+    # concrete indices of the remainder (per removed objects): the remainder must not depend on a summation index of the itmd
+    "contracted index in the remainder": ("ia", "k", True, [[((0,), (0,), {"i": "m", "k": "n"}, "F0"), ((1,), (1,), {"i": "m", "k": "o"}, "F1")]],
+                                          None, {(0,): "nq", (1,): "q"}),
+    "every variant sums an index of the remainder": ("ia", "k", True, [[((0,), (0,), {"i": "m"}, "F0"), ((1,), (0,), {"k": "n"}, "F1")]],
+                                                     None, {(0,): "mk", (1,): "n"}),
+    "remainder and targets concrete": ("ia", "k", True, [[((0,), (0,), {"k": "x"}, "F0"), ((1,), (0,), {"k": "q"}, "F1"), ((2,), (0,), {"k": "n"}, "F2")]],
+                                       "xy", {(1,): "q", (2,): "x"}),
 }
 
 
@@ -560,35 +580,50 @@ def conserved(ctx, rule, fn, what, value, sources, judge, key):
     return why is None
 
 
-def sums_target(v, contracted, targets):
-    """a contracted index of the intermediate is mapped (or left) on a target index of the term by the variant"""
-    if targets is None:
-        return False
-    return any(v["sub"].get(mk_index(c), mk_index(c)) in targets for c in contracted)
+def short_variant_refused(v, defaults, contracted, targets, rem_idx):
+    """why a variant must not be used to factor a short intermediate (None: valid match) - as far as the scenario fixes the
+    target indices of the term and the indices of the remainder"""
+    img = [nm(v["sub"].get(mk_index(c), mk_index(c))) for c in contracted]
+    dfl = [nm(v["sub"].get(mk_index(c), mk_index(c))) for c in defaults]
+    if targets is not None and any(x in [nm(t) for t in targets] for x in img):
+        return ("a contracted index of the intermediate lands on a target index of the term: that index is fixed, not summed, in the term")
+    if len(set(img)) != len(img):
+        return "two contracted indices of the intermediate land on the same index: the term holds only the diagonal of the double sum"
+    if any(x in dfl for x in img):
+        return "a contracted index of the intermediate coincides with one of its target indices: the term holds only a part of the sum"
+    if rem_idx is not None and any(x in rem_idx.get(tuple(v["eri_i"]), "") for x in img):
+        return "a contracted index of the intermediate also occurs in the remainder: the remainder depends on the summation index"
+    return None
 
 
-def target_decided(o, s, variants, contracted):
-    """symbolic target indices: on a path that accepts a variant the evaluation must have decided, for every contracted
-    index of the intermediate, that its image is none of the term's target indices"""
+def decisions_made(o, s, variants, contracted, need_target, need_remainder):
+    """symbolic target indices / remainder indices: on a path that accepts a variant the evaluation must have decided, for
+    every contracted index of the intermediate, that its image is no target index of the term and no index of the remainder"""
     a = args_of(s)
     g = [c for c in subterms(a.get("remainder")) if c.op == "call" and c.args[0] == "_get_remainder"]
     if not g:
         return None
-    g = args_of(g[0])
+    call = g[0]
+    g = args_of(call)
     term = g.get("term")
     v = [v for v in variants or () if tuple(g.get("obj_i", ())) == tuple(v["eri_i"]) and tuple(g.get("denom_i", ())) == tuple(v["denom_i"])]
     if not v:
         return None
-    tgt = T("attr", T("attr", term, "eri"), "target")
+    markers = []
+    if need_target:
+        markers.append((T("attr", T("attr", term, "eri"), "target"), "no target index of the term (term.eri.target): a target index is fixed, "
+                        "the factored term would sum over it"))
+    if need_remainder:
+        markers.append((T("attr", call, "idx"), "no index of the remainder: the remainder would depend on the summation index"))
     for c in contracted:
         img = v[0]["sub"].get(mk_index(c), mk_index(c)).term
-        atoms = [(at, pol) for at, pol in o.path if at.op == "cmp" and any(x == img for x in subterms(at)) and
-                 any(x == tgt for x in subterms(at))]
-        if not atoms:
-            return (f"the variant is accepted without checking that the contracted index {show(img)} of the intermediate is no target "
-                    "index of the term (term.eri.target): a target index is fixed, the factored term would sum over it")
-        if any(pol for at, pol in atoms if at.args[0] in ("in", "==", "is")):
-            return f"the variant is accepted although {show(atoms[0][0])} was decided to hold"
+        for marker, text in markers:
+            atoms = [(at, pol) for at, pol in o.path if at.op == "cmp" and any(x == img for x in subterms(at)) and
+                     any(x == marker for x in subterms(at))]
+            if not atoms:
+                return f"the variant is accepted without checking that the contracted index {show(img)} of the intermediate is {text}"
+            if any(pol for at, pol in atoms if at.args[0] in ("in", "==", "is")):
+                return f"the variant is accepted although {show(atoms[0][0])[:200]} was decided to hold"
     return None
 
 
@@ -598,7 +633,8 @@ def r11b_short(ctx):
     n_fact = n_keep = 0
     for sname, scen in SHORT_SCENARIOS.items():
         defaults, contracted, has_denom, per_term = scen[:4]
-        targets = tuple(mk_index(x) for x in scen[4]) if len(scen) > 4 else None
+        targets = tuple(mk_index(x) for x in scen[4]) if len(scen) > 4 and scen[4] is not None else None
+        rem_idx = scen[5] if len(scen) > 5 else None
         srcs = [sym(f"t{k}") for k in range(len(per_term))]
         variants = []
         for vs in per_term:
@@ -634,6 +670,9 @@ def r11b_short(ctx):
             # <split term>.eri.target of the scenarios with concrete target indices
             if targets is not None and attr == "target" and isinstance(obj, T) and obj.op == "attr" and obj.args[1] == "eri":
                 return targets
+            # the indices of the remainder that a variant leaves, in the scenarios that fix them
+            if rem_idx is not None and attr == "idx" and isinstance(obj, T) and obj.op == "call" and obj.args[0] == "_get_remainder":
+                return tuple(mk_index(x) for x in rem_idx.get(tuple(args_of(obj).get("obj_i", ())), ""))
             return NotImplemented
         sx = Symex(ctx.model, inline=factor_inline, hooks={"get_symbols": get_symbols_model, "_compare_terms": compare_terms},
                    what=f"_factor_short_intermediate[{sname}]", max_paths=60000, attr_hook=target_of)
@@ -641,8 +680,9 @@ def r11b_short(ctx):
         judged = set()
         for o in outs:
             if o.kind == "raise":
-                ctx.check(rule, fn, o.exc == "RuntimeError", f"[{sname}] contracted itmd index inside the remainder refused",
-                          f"_factor_short_intermediate[{sname}] raises {o.exc} on {o.path!r}", key=f"short raise {sname} {o.exc}")
+                ctx.bad(rule, fn, f"_factor_short_intermediate[{sname}] raises {o.exc} on the path {o.path!r}: a variant that can not be "
+                        "factored (contracted index of the intermediate in the remainder, ...) is skipped, the term stays as it is",
+                        key=f"short raise {sname} {o.exc}")
                 continue
             if any(pol and a == T("attr", sym("expr.sympy"), "is_number") or (pol and a == sym("expr.is_number")) for a, pol in o.path):
                 ctx.check(rule, fn, isinstance(o.value, Obj) and o.value.name == "expr", f"[{sname}] a number is returned unchanged",
@@ -661,17 +701,20 @@ def r11b_short(ctx):
                     return None
                 for v in variants[k] or ():
                     v["_defaults"] = defaults
-                allowed = [v for v in variants[k] or () if not sums_target(v, contracted, targets)]
+                refused = {id(v): short_variant_refused(v, defaults, contracted, targets, rem_idx) for v in variants[k] or ()}
+                allowed = [v for v in variants[k] or () if not refused[id(v)]]
                 state.append("factored")
-                if targets is not None and not allowed:
-                    return (f"the term is replaced by the intermediate although in every variant a contracted index of the intermediate "
-                            f"lands on a target index of the term {[nm(x) for x in targets]}: that index is fixed, not summed, in the term")
+                if not allowed:
+                    return ("the term is replaced by the intermediate although no variant is a valid match: "
+                            + "; ".join(sorted(set(refused.values()))))
                 r = _factored_matches(ctx, s, srcs[k], allowed, compared)
-                if r is not None and targets is not None and _factored_matches(ctx, s, srcs[k], variants[k], compared) is None:
-                    return (f"a variant is accepted in which a contracted index of the intermediate is substituted by a target index of "
-                            f"the term {[nm(x) for x in targets]}: the factored term sums an index that is fixed in the term")
-                if r is None and targets is None and contracted:
-                    r = target_decided(o, s, variants[k], contracted)
+                if r is not None and _factored_matches(ctx, s, srcs[k], variants[k], compared) is None:
+                    g = args_of([c for c in subterms(args_of(s).get("remainder")) if c.op == "call" and c.args[0] == "_get_remainder"][0])
+                    bad = [refused[id(v)] for v in variants[k] if refused[id(v)] and tuple(g.get("obj_i", ())) == tuple(v["eri_i"])
+                           and tuple(g.get("denom_i", ())) == tuple(v["denom_i"])]
+                    return "a variant is accepted although " + (bad[0] if bad else "it is no valid match")
+                if r is None and contracted:
+                    r = decisions_made(o, s, variants[k], contracted, targets is None, rem_idx is None)
                 return r
             sig = repr(canon(o.value))
             if sig in judged:
@@ -1086,10 +1129,33 @@ def keyset(t):
     return multiset(product_key(c, fs, lambda f: True) for c, fs in expand_products(t))
 
 
+LONG_TARGETS, LONG_REMAINDER_IDX = ("x", "y"), ("z", "y")
+
+
+def long_variant_refused(sub, contracted):
+    """why a variant of the long scenario must not enter the pool (None: it is a valid match)"""
+    imgs = [sub.get(c, c) for c in contracted]
+    dflt = [sub.get(c, c) for c in "ijab"]
+    if any(x in LONG_TARGETS for x in imgs):
+        return "a contracted index of the intermediate lands on a target index of the term (it is fixed there, not summed)"
+    if len(set(imgs)) != len(imgs):
+        return "two contracted indices of the intermediate land on the same index: the term holds only the diagonal of the double sum"
+    if any(x in dflt for x in imgs):
+        return "a contracted index of the intermediate coincides with one of its target indices: the term holds only a part of the sum"
+    if any(x in LONG_REMAINDER_IDX for x in imgs):
+        return "a contracted index of the intermediate also occurs in the remainder: the remainder depends on the summation index"
+    if dflt[0] > dflt[1]:
+        return ("the tensor symmetry reorders the itmd indices (alias of the match at another position of the definition, which is "
+                "found on its own): registering it here counts the term twice")
+    return None
+
+
 def r11b_long(ctx):
     """_factor_long_intermediate: (1) every match that enters the pool carries prefactor = term.pref * factor /
     (n * itmd_term.pref) and unit prefactor = itmd_term.pref * factor * n (n = number of itmd terms the match spreads to,
-    factor = variant factor * sign of the index-minimised tensor), remainder and indices of the same variant;
+    factor = variant factor), remainder and indices of the same variant; variants that put a contracted index of the
+    intermediate on a target index of the term, on another index of the intermediate or into the remainder, and aliases
+    produced by the tensor symmetry never enter the pool (and nothing is raised for them);
     (2) the result is what _factor_complete/_factor_mixed_prefactors return plus every term they did not consume, once."""
     rule = "R11b"
     fn = ctx.model.fn(FI + "_factor_long_intermediate")
@@ -1097,9 +1163,15 @@ def r11b_long(ctx):
     MIN = tuple(mk_index(c) for c in "klcd")
     # term -> itmd term -> variants (eri_i, denom_i, sub, factor); term 1 is no candidate at all, term 3 has no denominator
     table = {
-        0: {0: [((0,), (0,), {"i": "m", "j": "n", "k": "o"}, "F00a"), ((1,), (0,), {"i": "m", "j": "n"}, "F00b"),
-                ((1,), (1,), {"i": "n", "j": "m", "k": "l"}, "F00c"), ((2,), (0,), {"i": "n", "j": "o", "k": "x"}, "F00x")],
-            1: [((0, 1), (1,), {"a": "e"}, "F01")]},
+        0: {0: [((0,), (0,), {"i": "m", "j": "n", "k": "o", "l": "u"}, "F00a"),       # fine
+                ((1,), (0,), {"i": "m", "j": "n"}, "F00b"),                            # fine, same itmd indices as F00a
+                ((1,), (1,), {"i": "n", "j": "m", "k": "o", "l": "u"}, "F00alias"),    # tensor symmetry reorders the indices: alias
+                ((2,), (0,), {"i": "m", "j": "o", "k": "x", "l": "u"}, "F00target"),   # contracted index on a target index of the term
+                ((2,), (1,), {"i": "m", "j": "o", "k": "u", "l": "u"}, "F00same"),     # two contracted indices on one index
+                ((2,), (2,), {"i": "m", "j": "o", "k": "o", "l": "u"}, "F00diag"),     # contracted index on an itmd target index
+                ((3,), (0,), {"i": "m", "j": "o", "k": "z", "l": "u"}, "F00rem"),      # contracted index occurs in the remainder
+                ((3,), (1,), {"i": "m", "j": "m", "k": "o", "l": "u"}, "F00tt")],      # two TARGET indices coincide: still a match
+            1: [((0, 1), (1,), {"a": "e"}, "F01"), ((0, 2), (1,), {"i": "w", "j": "v"}, "F01alias")]},
         2: {0: None, 1: [((2,), (0, 0), {"b": "f", "k": "y"}, "F21")]},   # itmd term 1 has no contracted index: k is irrelevant
         3: {0: [((0,), (), {}, "F30")], 1: [((0,), (), {}, "F31")]},
     }
@@ -1143,9 +1215,12 @@ def r11b_long(ctx):
             if kw.get("return_sympy") or (len(a) > 1 and a[1]):
                 return Obj("sympy_objects:NonSymmetricTensor", "TENSOR")
             idx = tuple(kw.get("indices", a[0] if a else ()))
-            objs = [Obj(None, "tensor_obj", base=Obj("sympy_objects:AntiSymmetricTensor", "tensor_base"), idx=tuple(reversed(idx)),
+            # the tensor is (anti)symmetric in its first two indices: it stores them in canonical order
+            swapped = nm(idx[0]) > nm(idx[1])
+            canonical = ((idx[1], idx[0]) if swapped else idx[:2]) + idx[2:]
+            objs = [Obj(None, "tensor_obj", base=Obj("sympy_objects:AntiSymmetricTensor", "tensor_base"), idx=canonical,
                         sympy=Obj(None, "tensor_obj.sympy", is_number=False))]
-            if with_sign:
+            if with_sign and swapped:
                 objs.insert(0, Obj(None, "sign_obj", base=Obj(None, "sign_base", _classes=()), sympy=Obj(None, "TSIGN", is_number=True)))
             t = Obj(None, "tensor_term", objects=objs, _len=len(objs))
             return Obj(None, "tensor_expr", terms=[t])
@@ -1183,8 +1258,8 @@ def r11b_long(ctx):
 
         def args():
             st.update(compared=[], minimized=[], adds=[], parts=[], mapped=[], rem_compared=0)
-            # itmd term 0 sums over k: a variant that puts k on a target index of the term (x, y) must not enter the pool
-            itmd = [Obj(None, f"itmd{i}", expr=Obj(None, f"itmd{i}.expr", idx=D + ((mk_index("k"),) if i == 0 else ())),
+            # itmd term 0 sums over k and l
+            itmd = [Obj(None, f"itmd{i}", expr=Obj(None, f"itmd{i}.expr", idx=D + ((mk_index("k"), mk_index("l")) if i == 0 else ())),
                         pref=sym(f"itmd{i}.pref"), pos=i) for i in range(2)]
             data = tuple(Obj(None, f"itmd_data{i}", eri_obj_descriptions={"V": 1 + i}, denom_bracket_lengths={4: 1} if i == 0 else None, pos=i)
                          for i in range(2))
@@ -1205,7 +1280,7 @@ def r11b_long(ctx):
                  "len": lambda sx_, a_, kw_: a_[0].attrs["_len"] if len(a_) == 1 and isinstance(a_[0], Obj) and "_len" in a_[0].attrs else NotImplemented}
         sx = Symex(ctx.model, inline=factor_inline, hooks=hooks, what="_factor_long_intermediate", max_paths=256)
         outs = sx.run(fn, args)
-        tag = "signed tensor" if with_sign else "duplicate remainders"
+        tag = "antisymmetric tensor" if with_sign else "symmetric tensor, duplicate remainders"
         what = f"_factor_long_intermediate[{tag}]"
         if len(outs) != 1 or outs[0].kind != "return":
             ctx.bad(rule, fn, f"{what}: {outs[:3]}", key=f"long shape {tag}")
@@ -1228,8 +1303,8 @@ def r11b_long(ctx):
         for k, i in candidates:
             seen_idx = set()
             for n_v, v in enumerate(table.get(k, {}).get(i) or ()):
-                if i == 0 and v[2].get("k", "k") in ("x", "y"):
-                    continue    # would sum a target index of the term
+                if long_variant_refused(v[2], "kl" if i == 0 else ""):
+                    continue
                 key_ = tuple(v[2].get(c, c) for c in "ijab")
                 if dup and key_ in seen_idx:
                     continue
@@ -1240,20 +1315,23 @@ def r11b_long(ctx):
         for a_, kw_ in st["adds"]:
             b = dict(zip(("term_i", "itmd_indices", "remainder", "matching_itmd_terms", "prefactor", "unit_factorization_pref"), a_))
             b.update(kw_)
-            if b.get("term_i") == 0 and any(x == sym("F00x") for x in subterms(b.get("prefactor"))):
-                why = ("a match enters the pool in which the contracted index k of the intermediate is substituted by the target index x of the "
-                       "term: x is fixed in the term, the factored intermediate would sum over it")
+            for k_, per in table.items():
+                for i_, vs_ in per.items():
+                    for e_i, d_i, sub, f in vs_ or ():
+                        r = long_variant_refused(sub, "kl" if i_ == 0 else "")
+                        if r and any(x == sym(f) for x in subterms(b.get("prefactor"))):
+                            why = f"the match {f} (substitution {sub}) enters the pool although {r}"
         for (a_, kw_), (k, i, n_v, (e_i, d_i, sub, f)) in zip(st["adds"], exp):
             if why:
                 break
             b = dict(zip(("term_i", "itmd_indices", "remainder", "matching_itmd_terms", "prefactor", "unit_factorization_pref"), a_))
             b.update(kw_)
             M = spread.get((k, i), {i})
-            fac = t_mul(sym(f), sym("TSIGN")) if with_sign else sym(f)
+            fac = sym(f)
             want_p = t_mul(sym(f"t{k}.pref"), fac, Fraction(1, len(M)), t_pow(sym(f"itmd{i}.pref"), -1))
             want_u = t_mul(sym(f"itmd{i}.pref"), fac, len(M))
             img = tuple((sub.get(c, c)) for c in "ijab")
-            want_idx = tuple(reversed(tuple(x + "1" if len(x) == 1 else x for x in img)))
+            want_idx = tuple(x + "1" if len(x) == 1 else x for x in img)
             rem = b.get("remainder")
             gr = [c for c in subterms(rem) if c.op == "call" and c.args[0] == "_get_remainder"] if isinstance(rem, T) else []
             if b.get("term_i") != k:
@@ -1486,16 +1564,21 @@ def r11b(ctx):
         f(ctx)
 
 
-def _tensor_provider(names):
-    """abstract intermediate class: ``tensor(...)`` hands out a tensor record and logs how it was requested"""
+def _tensor_provider(names, negative=False):
+    """abstract intermediate class: ``tensor(...)`` hands out a tensor record (``negative``: -tensor, as the library returns
+    for indices that are not in canonical order) and logs how it was requested"""
     log = []
 
     def tensor(sx, a, kw):
         nm_ = names[len(log) % len(names)] if isinstance(names, (list, tuple)) else names
         log.append((tuple(a), dict(kw)))
         o = Obj(None, f"TENSOR{len(log) - 1}")
-        o.attrs.update(name=nm_)
-        return o
+        o.attrs.update(name=nm_, atoms=lambda sx_, a_, kw_: {o})
+        if not negative:
+            return o
+        neg = Obj(None, f"NEG_TENSOR{len(log) - 1}")
+        neg.attrs.update(atoms=lambda sx_, a_, kw_: {o})
+        return neg
     cls = Obj(None, "itmd_cls")
     cls.attrs.update(tensor=tensor, name="t9_9")
     return cls, log
@@ -1506,15 +1589,16 @@ def r11c(ctx):
     fn = ctx.model.fn(FI + "_build_factored_term")
     sx = Symex(ctx.model, inline=lambda q: True, what="_build_factored_term")
     IDX = tuple(mk_index(x) for x in "ijab")
-    for name in ("Zero", "t2eri4", "t2eri_4", "Z", "Zeroo", "zero", "ZERO", "t1", "t2sq", "p2", "", sym("NAME")):
+    for name, negative in [(n_, False) for n_ in ("Zero", "t2eri4", "t2eri_4", "Z", "Zeroo", "zero", "ZERO", "t1", "t2sq", "p2", "", sym("NAME"))] + \
+            [("Zero", True), ("t2eri4", True), (sym("NAME"), True)]:
         st = {}
 
         def args():
-            st["cls"], st["log"] = _tensor_provider(name)
+            st["cls"], st["log"] = _tensor_provider(name, negative)
             return dict(remainder=sym("REM"), pref=sym("PREF"), itmd_cls=st["cls"], itmd_indices=IDX)
         outs = sx.run(fn, args)
         for o in outs:
-            tag = show(name) if isinstance(name, T) else repr(name)
+            tag = (show(name) if isinstance(name, T) else repr(name)) + (" (-tensor)" if negative else "")
             if o.kind != "return":
                 ctx.bad(rule, fn, f"_build_factored_term raises {o.exc} for a tensor named {tag}", key=f"raise {tag}")
                 continue
@@ -1527,7 +1611,7 @@ def r11c(ctx):
                 ctx.check(rule, fn, bool(ok), "the placeholder tensor 'Zero' resolves to 0 with the assumptions of the remainder",
                           f"_build_factored_term for the placeholder 'Zero' returns {show(o.value)[:160]}", key=f"zero placeholder {tag}")
             else:
-                tens = sym("TENSOR0")
+                tens = sym("NEG_TENSOR0" if negative else "TENSOR0")
                 prods = expand_products(v)
                 ok = len(prods) == 1 and prods[0][0] == 1 and sorted(map(show, prods[0][1])) == sorted(map(show, [sym("REM"), sym("PREF"), tens]))
                 ctx.check(rule, fn, ok, f"tensor named {tag}: factored term = remainder * pref * tensor",
